@@ -40,11 +40,29 @@ type e2ePlan struct {
 	Shrink *e2eSil `json:"shrink,omitempty"`
 	// Mutate: the payload of message G is replaced in flight (adversarial peer)
 	Mutate *e2eMut `json:"mutate,omitempty"`
+	// Mutate2: a second message of the same run is replaced too (only together with Mutate)
+	Mutate2 *e2eMut `json:"mutate2,omitempty"`
 	// Hold: message K of direction Dir is delivered Ms late; a slow acknowledgement makes the sender shrink
 	// its buffer size
 	Hold *e2eHold `json:"hold,omitempty"`
 	// CheckLeft: after both roles returned wait timeout+1s and count transfer goroutines still alive
 	CheckLeft bool `json:"checkleft,omitempty"`
+	// Point: a goroutine of the pipeline is held at one of its blocking operations (vhook points of
+	// pipeline.go) while something happens: see e2ePoint
+	Point *e2ePoint `json:"point,omitempty"`
+}
+
+// e2ePoint: the Nth time a pipeline goroutine reaches the hook point Name it is held there (the stages
+// in front of it run full, the stages behind it run dry); SettleMs later Kind happens (none | silence |
+// writeerr | stopC | stopCdel | stopV | pause); the goroutine goes on ReleaseMs after that (times to
+// return are measured from then).
+type e2ePoint struct {
+	Name      string `json:"name"`
+	Nth       int    `json:"nth"`
+	SettleMs  int    `json:"settle_ms"`
+	Kind      string `json:"kind"`
+	ReleaseMs int    `json:"release_ms"`
+	ResumeMs  int    `json:"resume_ms,omitempty"` // Kind pause: the client continues after this long
 }
 
 type e2eStop struct {
@@ -172,6 +190,9 @@ func e2eExec(c *e2eCase, work string, tr *vTrace, logLines bool) (*e2eResult, ma
 	}
 	if c.Plan.Mutate != nil {
 		w.mutG, w.mutNew, w.mutType = c.Plan.Mutate.G, c.Plan.Mutate.New, c.Plan.Mutate.Type
+		if c.Plan.Mutate2 != nil {
+			w.mut2G, w.mut2New = c.Plan.Mutate2.G, c.Plan.Mutate2.New
+		}
 	}
 	if c.Plan.DstErr && len(tops) > 0 {
 		_ = os.Symlink("/dev/full", filepath.Join(dst, filepath.Base(tops[0])))
@@ -192,8 +213,9 @@ func e2eExec(c *e2eCase, work string, tr *vTrace, logLines bool) (*e2eResult, ma
 	}
 	reset := map[string]any{"e": "reset", "run": c.ID, "upload": o.Upload, "proto": proto, "binary": o.Binary,
 		"overwrite": o.Overwrite, "directory": o.Directory, "windows": o.Windows,
-		"nfaults": len(c.Plan.Faults), "stop": "none", "stopdel": false, "pause": c.Plan.Pause != nil,
-		"silence": c.Plan.Silence != nil || c.Plan.WriteErr != nil || c.Plan.DstErr || c.Plan.Shrink != nil || c.Plan.Mutate != nil, "timeout": o.Timeout,
+		"nfaults": len(c.Plan.Faults), "stop": "none", "stopdel": false, "pause": c.Plan.Pause != nil || (c.Plan.Point != nil && c.Plan.Point.Kind == "pause"),
+		"silence": c.Plan.Silence != nil || c.Plan.WriteErr != nil || c.Plan.DstErr || c.Plan.Shrink != nil || c.Plan.Mutate != nil ||
+			(c.Plan.Point != nil && (c.Plan.Point.Kind == "silence" || c.Plan.Point.Kind == "writeerr")), "timeout": o.Timeout,
 		"fkind": e2ePlanKind(&c.Plan), "prehs": e2ePreHandshake(&c.Plan)}
 	{
 		fl := []map[string]any{}
@@ -205,6 +227,10 @@ func e2eExec(c *e2eCase, work string, tr *vTrace, logLines bool) (*e2eResult, ma
 	if c.Plan.Stop != nil {
 		reset["stop"] = c.Plan.Stop.Role
 		reset["stopdel"] = c.Plan.Stop.Delete
+	}
+	if pt := c.Plan.Point; pt != nil && strings.HasPrefix(pt.Kind, "stop") {
+		reset["stop"] = pt.Kind[4:5]
+		reset["stopdel"] = pt.Kind == "stopCdel"
 	}
 	var stopAt, resumedAt time.Time
 	var pauseMu sync.Mutex
@@ -224,6 +250,7 @@ func e2eExec(c *e2eCase, work string, tr *vTrace, logLines bool) (*e2eResult, ma
 		tr.Emit(ev, do)
 		return true
 	}
+	pointOver := make(chan struct{})
 	hooks := &e2eHooks{chain: e2eChain, uid: e2eChainUID}
 	if c.WatchdogMs > 0 {
 		hooks.watchdog = time.Duration(c.WatchdogMs) * time.Millisecond
@@ -231,7 +258,25 @@ func e2eExec(c *e2eCase, work string, tr *vTrace, logLines bool) (*e2eResult, ma
 	hooks.ready = func(w *e2eWire, client func() *trzszTransfer, server *trzszTransfer, f *TrzszFilter) {
 		st, pa := c.Plan.Stop, c.Plan.Pause
 		sil, we, shr := c.Plan.Silence, c.Plan.WriteErr, c.Plan.Shrink
-		if st == nil && pa == nil && sil == nil && we == nil && shr == nil {
+		if pt := c.Plan.Point; pt != nil {
+			dataDir := "s2c"
+			if o.Upload {
+				dataDir = "c2s"
+			}
+			e2eInstallPoint(pt, c.ID, tr, w, client, server, f, dataDir, emitLive, &stopAt, func() {
+				pauseMu.Lock()
+				nPauses++
+				pauseMu.Unlock()
+			}, func(on bool) {
+				pauseMu.Lock()
+				pausedNow = on
+				if !on {
+					resumedAt = time.Now()
+				}
+				pauseMu.Unlock()
+			}, pointOver)
+		}
+		if st == nil && pa == nil && sil == nil && we == nil && shr == nil && c.Plan.Point == nil {
 			return
 		}
 		if c.Plan.DstErr {
@@ -351,7 +396,7 @@ func e2eExec(c *e2eCase, work string, tr *vTrace, logLines bool) (*e2eResult, ma
 				}
 			}
 			// what the paused client writes: file data vs keep-alive lines
-			if pa != nil && phase == "before" && m.Dir == "c2s" && m.Typ == "DATA" {
+			if (pa != nil || (c.Plan.Point != nil && c.Plan.Point.Kind == "pause")) && phase == "before" && m.Dir == "c2s" && m.Typ == "DATA" {
 				pauseMu.Lock()
 				if pausedNow {
 					if m.Keep {
@@ -374,7 +419,11 @@ func e2eExec(c *e2eCase, work string, tr *vTrace, logLines bool) (*e2eResult, ma
 	overMu.Lock()
 	over = true
 	overMu.Unlock()
-	if len(res.Hung) > 0 {
+	close(pointOver)
+	if c.Plan.Point != nil {
+		e2ePointWait()
+	}
+	if len(res.Hung) > 0 || res.NoAct {
 		e2eTainted = true
 	}
 	if c.Plan.Mutate != nil && stopAt.IsZero() {
@@ -573,7 +622,15 @@ func e2eShmBase() string {
 }
 
 func e2eName(kind int, i int) string {
-	switch kind % 7 {
+	switch kind % 11 {
+	case 7: // legal names that merely contain dots in a row (not the parent reference)
+		return fmt.Sprintf("notes..v%d...txt", i)
+	case 8:
+		return fmt.Sprintf("..lead%d", i)
+	case 9:
+		return fmt.Sprintf("trail%d..", i)
+	case 10:
+		return fmt.Sprintf(".#hash:colon~%d", i)
 	case 5: // code points whose low byte is '/' or '\\': a name check must not truncate runes
 		return fmt.Sprintf("me\u012fl\u0117-\u592f\u5b9e-%d", i)
 	case 6:
@@ -671,6 +728,8 @@ func e2ePlanKind(p *e2ePlan) string {
 		return "shrink"
 	case p.Mutate != nil:
 		return "mutate"
+	case p.Point != nil:
+		return "point-" + p.Point.Kind
 	case p.Stop != nil:
 		return "stop"
 	case p.Pause != nil:
@@ -759,6 +818,9 @@ func e2eLayouts(d *vCtx, bases []*e2eCase) ([][]e2eLayoutMsg, error) {
 }
 
 func e2ePauseMs(p *e2ePlan) int {
+	if p.Point != nil && p.Point.Kind == "pause" {
+		return p.Point.ResumeMs
+	}
 	if p.Pause == nil {
 		return 0
 	}
